@@ -526,15 +526,11 @@ def check_c08(tier):
         for row in ctx.case["avail"]:
             ops.append({"op": "available", "path": UNI.paths[row["f"]]})
             tags.append(("avail", row["f"]))
-            ops.append({"op": "scope_mismatch", "path": UNI.paths[row["f"]]})
-            tags.append(("mismatch", row["f"]))
         for row in ctx.case["rff"]:
             ops.append({"op": "resolve_for_file", "path": UNI.paths[row["d"]["file"]], "name": row["dep"]})
             tags.append(("rff", str(defid(row["d"])), row["dep"]))
         ops.append({"op": "unused"})
         tags.append(("unused",))
-        ops.append({"op": "cycles"})
-        tags.append(("cycles",))
         return ops, tags
 
     def judge(ctx, answers, n):
@@ -611,7 +607,7 @@ def check_c08(tier):
     return V.finish(
         coverage_extra=tlc_cov(meta, replayed),
         rule="for every layout of spec/Layouts.tla the full observable snapshot (navigation per usage, references "
-             "per definition, per-file view, outgoing-calls resolver, scope mismatches, cycles, CLI unused) is "
+             "per definition, per-file view, outgoing-calls resolver, CLI unused; cycles and scope mismatches in the DepGraphs table) is "
              "computed on the real library under EVERY registration order of the files defining the name and the "
              "snapshots are compared; non-trivial = layout with >= 2 orders; TLC checks RepairedEqualsR under all orders",
         assumptions=["the parallel scan's schedule affects the index only through per-file analysis order (C09 covers atomicity)",
